@@ -83,8 +83,11 @@ def arrayRefs (evs : List Ev) : List String :=
 def varNames (evs : List Ev) : List String :=
   evs.filterMap (fun ev => match ev with | .var n _ => some n | _ => none)
 
-def goTargets (evs : List Ev) : List Int :=
-  evs.flatMap (fun ev => match ev with | .go ns => ns | _ => [])
+def goOf : Ev → List Int
+  | .go ns => ns
+  | _ => []
+
+def goTargets (evs : List Ev) : List Int := evs.flatMap goOf
 
 def usesJoystk (evs : List Ev) : Bool := evs.any (fun ev => match ev with | .joystk => true | _ => false)
 
@@ -168,6 +171,26 @@ def errorHandlerLines (brk err : Option Int) : List Line :=
       | some e => [{ num := none, body := (.stmts true [.goto e false false []] []) }]
       | none => [])
 
+/-- `LineNumberFilterVisitor` (filter on) / `LineZeroFilterVisitor` (filter off) -/
+def applyFilter (filter : Bool) (refs : List Int) (l : Line) : Line :=
+  if filter then
+    { l with referenced := match l.num with | some n => refs.contains n | none => false }
+  else if l.num == some 0 then { l with referenced := refs.contains 0 } else l
+
+def tooBig : Option Int → Bool
+  | some k => k > 32699
+  | none => false
+
+/-- `LineNumberCheckerVisitor` and the two handler counts: the documented refusals -/
+def lineCheck (nums : List (Option Int)) (refs : List Int) (errs brks : List Int) : Option String :=
+  match nums.find? tooBig with
+  | some _ => some "LineNumberTooLargeException"
+  | none =>
+    if refs.any (fun r => !nums.contains (some r)) then some "ParseError"
+    else if errs.length > 1 then some "ParseError"
+    else if brks.length > 1 then some "ParseError"
+    else none
+
 /-! ### `BasicProg.basic09_text` -/
 
 def nestDelta (evs : List Ev) : Int :=
@@ -236,19 +259,13 @@ def convertAst (o : Options) (p0 : Prog) : Outcome × String :=
   let p := mapProg (setDimInit o.initializeVars) p
   let evs := Visit.prog p
   let refs := goTargets evs
-  let p := { p with lines := p.lines.map (fun l =>
-      if o.filterUnusedLinenum then
-        { l with referenced := match l.num with | some n => refs.contains n | none => false }
-      else if l.num == some 0 then { l with referenced := refs.contains 0 } else l) }
+  let p := { p with lines := p.lines.map (applyFilter o.filterUnusedLinenum refs) }
   let nums := lineNums (Visit.prog p)
-  match nums.find? (fun n => match n with | some k => k > 32699 | none => false) with
-  | some _ => (.refused "LineNumberTooLargeException", procname)
-  | none =>
-  if refs.any (fun r => !nums.contains (some r)) then (.refused "ParseError", procname) else
   let errs := onErrLines evs
-  if errs.length > 1 then (.refused "ParseError", procname) else
   let brks := onBrkLines evs
-  if brks.length > 1 then (.refused "ParseError", procname) else
+  match lineCheck nums refs errs brks with
+  | some k => (.refused k, procname)
+  | none =>
   let p := { p with lines := nextPatchLines p.lines [] }
   let p := if o.addSuffix then { p with sfx := p.sfx ++ errorHandlerLines brks.head? errs.head? } else p
   let p := if o.addStandardPrefix && hasHbuff (Visit.prog p) then
